@@ -20,3 +20,24 @@ func ZzC12MediaURL() {
 	zzCover("resolved", ur != nil)
 	zzCover("rejected", err2 != nil)
 }
+
+// C12 (sequential kernel, arbitrary control attribute): the same for a control
+// attribute that is an arbitrary string of 0..CL bytes (no '@'), against a
+// content base with or without a trailing slash or a query.
+func ZzC12MediaURLAny() {
+	bases := []string{"rtsp://host:8554/stream/", "rtsp://host:8554/stream", "rtsp://host/s?k=v"}
+	cb, err := base.ParseURL(bases[zzConcretize(zzIntIn("base", 0, 2))])
+	zzAssert(err == nil, "content base parses")
+	n := zzParam("CL", 2)
+	ctl := zzString("control", 0, n)
+	ok := true
+	for i := 0; i < n; i++ {
+		ok = zzAnd(ok, zzImplies(i < len(ctl), zzSAt(ctl, i) != '@'))
+	}
+	zzAssume(ok)
+	m := Media{Control: ctl}
+	ur, err2 := m.URL(cb)
+	zzAssert(!(ur == nil && err2 == nil), "media URL resolution returns a URL or an error, never neither")
+	zzCover("resolved", ur != nil)
+	zzCover("rejected", err2 != nil)
+}
